@@ -1459,6 +1459,14 @@ func (s *sys) apply(ev string) {
 		s.pool.SetIdleBehavior(cloud.InstanceID(arg), worker.IdleBehaviorRun)
 	case "restart":
 		s.restart()
+	case "tick+release":
+		// every held request / answer goes through while the clock advances: the late messages are
+		// delivered concurrently with whatever the tick starts (probes, polls, scheduling passes)
+		for _, h := range s.holds {
+			h.released = true
+		}
+		s.holds = nil
+		s.tickOnce()
 	case "release":
 		// every held request / answer goes through now
 		for _, h := range s.holds {
